@@ -308,7 +308,7 @@ func joinFilter(a []any, sep func(string) string) any {
 	s := sep(" ")
 	for _, v := range a {
 		if v != nil {
-			ss = append(ss, fmt.Sprint(v))
+			ss = append(ss, fmt.Sprint(values.ResolveDrops(v)))
 		}
 	}
 	return strings.Join(ss, s)
@@ -369,9 +369,37 @@ func uniqFilter(a []any) (result []any) {
 	return
 }
 
+// eqItems reports whether two elements are the same to uniq: arrays and maps by what they hold,
+// whatever the Go type that holds it ([]int{1} and []any{1} are one element, as they are to
+// values.Equal; a drop in them is its value), everything else by Go's == (1 and 1.0 are two).
 func eqItems(a, b any) bool {
+	a, b = values.ToLiquid(a), values.ToLiquid(b)
 	if a == nil || b == nil {
 		return a == b
+	}
+	ra, rb := reflect.ValueOf(a), reflect.ValueOf(b)
+	switch {
+	case isArrayKind(ra.Kind()) && isArrayKind(rb.Kind()):
+		if ra.Len() != rb.Len() {
+			return false
+		}
+		for i := range ra.Len() {
+			if !eqItems(ra.Index(i).Interface(), rb.Index(i).Interface()) {
+				return false
+			}
+		}
+		return true
+	case ra.Kind() == reflect.Map && rb.Kind() == reflect.Map:
+		if ra.Type().Key() != rb.Type().Key() || ra.Len() != rb.Len() {
+			return false
+		}
+		for iter := ra.MapRange(); iter.Next(); {
+			eb := rb.MapIndex(iter.Key())
+			if !eb.IsValid() || !eqItems(iter.Value().Interface(), eb.Interface()) {
+				return false
+			}
+		}
+		return true
 	}
 	// ask the values, not the types: an array or struct type is comparable even when
 	// an element or field holds a slice or a map, and == would then panic
@@ -379,4 +407,8 @@ func eqItems(a, b any) bool {
 		return a == b
 	}
 	return reflect.DeepEqual(a, b)
+}
+
+func isArrayKind(k reflect.Kind) bool {
+	return k == reflect.Array || k == reflect.Slice
 }
